@@ -282,6 +282,9 @@ type cachedDocs struct {
 }
 
 func (c *cachedDocs) prepareFields(wantedFields []string, ss *SegmentSnapshot) error {
+	if simhook.Enabled {
+		wantedFields = simSortedFields(wantedFields)
+	}
 	c.m.Lock()
 
 	if c.cache == nil {
@@ -351,6 +354,9 @@ func (c *cachedDocs) updateSizeLOCKED() {
 
 func (c *cachedDocs) visitDoc(localDocNum uint64,
 	fields []string, visitor index.DocValueVisitor) {
+	if simhook.Enabled {
+		fields = simSortedFields(fields)
+	}
 	c.m.RLock()
 
 	for _, field := range fields {
